@@ -259,13 +259,19 @@ func vf12ErrClass(err error) string {
 // that has already consumed that many bytes — the int64 returned by
 // MustDecodeOpt must still be exact there).
 func vf12Run(data []byte, start, preset int64, bufSize, frag int, fseed uint64) (out []vf12Dec, errClass string) {
+	fr := &vf12FragReader{data: data, k: frag, r: vfutil.NewRand(fseed)}
+	return vf12RunOn(fr, func() int { return fr.pos }, nil, data, start, preset, bufSize)
+}
+
+// vf12RunOn: the loop over any underlying reader; pos() = bytes the reader has handed out so far;
+// done (optional) is called after every command that was decoded AND parsed.
+func vf12RunOn(rd io.Reader, pos func() int, done func(), data []byte, start, preset int64, bufSize int) (out []vf12Dec, errClass string) {
 	defer func() {
 		if p := recover(); p != nil {
 			errClass = "panic"
 		}
 	}()
-	fr := &vf12FragReader{data: data, k: frag, r: vfutil.NewRand(fseed)}
-	d := NewDecoder(bufio.NewReaderSize(fr, bufSize))
+	d := NewDecoder(bufio.NewReaderSize(rd, bufSize))
 	if preset != 0 {
 		d.offset = preset
 	}
@@ -276,7 +282,7 @@ func vf12Run(data []byte, start, preset int64, bufSize, frag int, fseed uint64) 
 			return out, vf12ErrClass(err)
 		}
 		// what was really consumed: handed out by the reader minus what still sits in bufio
-		cons := fr.pos - d.r.Buffered()
+		cons := pos() - d.r.Buffered()
 		p := prev
 		for p < len(data) && data[p] == '\n' {
 			p++
@@ -291,6 +297,9 @@ func vf12Run(data []byte, start, preset int64, bufSize, frag int, fseed uint64) 
 		// sendBuf / the batch queue while the parser decodes on): an argument must still hold
 		// its bytes when the whole stream has been decoded, not only right after its decode
 		out = append(out, vf12Dec{cmd, args, start + incr, int64(cons), inline})
+		if done != nil {
+			done()
+		}
 	}
 }
 
@@ -464,6 +473,11 @@ func (x *vf12T) streamP(src string, start, preset int64, b *vf12Buf, want [][][]
 		}
 		if ec == "panic" {
 			s.Violate("decoder-panic", "decoder panicked", vf12Replay(line))
+		}
+		if ov := vf12Overlap(out); ov != "" {
+			m := vf12Replay(line)
+			m["source"] = src
+			s.Violate("args-share-memory", ov, m)
 		}
 		// ---------------- the property, checked directly
 		if sok {
@@ -1044,6 +1058,12 @@ func (x *vf12T) soup() []byte {
 // replay re-runs one recorded op line (dec / wa / en) on the real code.
 func (x *vf12T) replay(op string) bool {
 	f := strings.Fields(op)
+	if len(f) >= 7 && (f[0] == "fr" || f[0] == "frx") {
+		return x.replayFrag(f)
+	}
+	if len(f) >= 1 && f[0] == "huge" {
+		return x.replayHuge(f)
+	}
 	if len(f) >= 7 && (f[0] == "dec" || f[0] == "decx") {
 		st, _ := strconv.ParseInt(f[2], 10, 64)
 		pre, _ := strconv.ParseInt(f[3], 10, 64)
@@ -1177,6 +1197,15 @@ func TestVerifC12(t *testing.T) {
 		}
 	}
 
+	// ---- fragmentation: a piece boundary at every index, the bufio model's request sizes (fr / frx ops)
+	x.fragSection()
+
+	// ---- one argument above 512 MiB (monitor only; the Lean driver cannot hold it)
+	x.hugeSection()
+
+	// ---- values of identical size following each other, held until the end
+	x.sameSizeSection(nconf)
+
 	// ---- single commands: every boundary size at every argument position 1..3
 	for _, n := range vf12Sizes {
 		if n > 60000 && !vfutil.Thorough() && n != 65536 {
@@ -1205,7 +1234,11 @@ func TestVerifC12(t *testing.T) {
 		}
 	}
 	// argument counts 1..300
-	for _, na := range []int{1, 2, 3, 9, 10, 11, 99, 100, 101, 299, 300} {
+	argCounts := []int{1, 2, 3, 9, 10, 11, 99, 100, 101, 299, 300, 1024, 1025, 65537} // MSET / SADD / DEL with very many keys
+	if vfutil.Thorough() {
+		argCounts = append(argCounts, 1023, 4096, 65535, 65536, 1<<20+1)
+	}
+	for _, na := range argCounts {
 		parts := []vf12Arg{{data: []byte("MSET")}}
 		for i := 1; i < na; i++ {
 			parts = append(parts, vf12Arg{data: vf12Content(r, r.Intn(6))})
@@ -1233,6 +1266,9 @@ func TestVerifC12(t *testing.T) {
 	// ---- one multi-megabyte argument per run (more in thorough)
 	for i := 0; i < vfutil.Scale(1, 4); i++ {
 		n := r.Range(2<<20, 6<<20)
+		if !vfutil.Thorough() {
+			n = r.Range(2<<20, 3<<20) // quick: the Lean driver's byte lists dominate the wall time
+		}
 		c := vfutil.Pick(r, []byte{'a', '\n', '\r', 0, 0xff, '$'})
 		cs := []vf12Cmd{
 			{[]vf12Arg{{data: []byte("SET")}, {data: []byte("before")}, {data: vf12Content(r, 10)}}},
@@ -1246,10 +1282,14 @@ func TestVerifC12(t *testing.T) {
 	// ---- several large arguments in flight together (decoded values are retained by the
 	// consumer: a later large value must not disturb an earlier one)
 	for i := 0; i < vfutil.Scale(1, 3); i++ {
+		na, nb, nc := r.Range(3<<20, 4<<20), r.Range(2<<20, 3<<20), r.Range(1<<20, 2<<20)
+		if !vfutil.Thorough() { // quick: all three still above 1 MiB, descending
+			na, nb, nc = r.Range(1700000, 1900000), r.Range(1400000, 1600000), r.Range(1<<20, 1300000)
+		}
 		cs := []vf12Cmd{
-			{[]vf12Arg{{data: []byte("SET")}, {data: []byte("big:a")}, {rep: true, c: 'a', n: r.Range(3<<20, 4<<20)}}},
+			{[]vf12Arg{{data: []byte("SET")}, {data: []byte("big:a")}, {rep: true, c: 'a', n: na}}},
 			{[]vf12Arg{{data: []byte("SET")}, {data: []byte("small")}, {data: vf12Content(r, 20)}}},
-			{[]vf12Arg{{data: []byte("MSET")}, {data: []byte("big:b")}, {rep: true, c: 'b', n: r.Range(2<<20, 3<<20)}, {data: []byte("big:c")}, {rep: true, c: 0xfe, n: r.Range(1<<20, 2<<20)}}},
+			{[]vf12Arg{{data: []byte("MSET")}, {data: []byte("big:b")}, {rep: true, c: 'b', n: nb}, {data: []byte("big:c")}, {rep: true, c: 0xfe, n: nc}}},
 			{[]vf12Arg{{data: []byte("SET")}, {data: []byte("mid")}, {rep: true, c: 'm', n: r.Range(60000, 70000)}}},
 		}
 		s.Count("argsize_several_multi_megabyte")
@@ -1355,6 +1395,9 @@ func TestVerifC12(t *testing.T) {
 	}
 	{ // one multi-megabyte []byte through WriteArgs
 		n := r.Range(2<<20, 4<<20)
+		if !vfutil.Thorough() {
+			n = r.Range(1<<20+1, 1<<20+400000)
+		}
 		v := bytes.Repeat([]byte{'z'}, n)
 		x.wargs([]interface{}{"SET", []byte("big"), v}, []string{"s:" + vfutil.HexS("SET"), "b:" + vfutil.HexS("big"), fmt.Sprintf("B:%d:%d", 'z', n)},
 			[][]byte{[]byte("SET"), []byte("big"), v})
